@@ -178,6 +178,13 @@ class FieldData:
       if (fieldname == self.__class__.STORAGE_KEY) or \
         (self.__class__.STORAGE_KEY == "name" and \
         fieldname == self.__class__.NAME_FIELD):
+         if value is not None and not gfapy.is_placeholder(value):
+           previous = self._gfa.line(str(value))
+           if previous is not None and previous is not self:
+             raise gfapy.NotUniqueError(
+               "Line: {}\n".format(str(self))+
+               "cannot be renamed to '{}'\n".format(value)+
+               "The identifier is already in use by: {}".format(str(previous)))
          renaming_connected = True
          self._gfa._unregister_line(self)
     if value is None:
